@@ -573,13 +573,6 @@ pub fn process_events(
     input: InputList,
     context: &mut TransformerContext,
 ) -> Result<(OutputList, Option<BoundingBox>)> {
-    if is_real_svg(&input) {
-        if context.get_top_element().is_none() {
-            // if this is the outermost SVG element, we mark the entire input as a 'real' SVG document
-            context.real_svg = true;
-        }
-        return Ok((OutputList::raw(input), None));
-    }
     let mut output = OutputList::new();
     let mut idx_output = BTreeMap::<OrderIndex, OutputList>::new();
 
@@ -612,7 +605,16 @@ impl Transformer {
     pub fn transform(&mut self, reader: &mut dyn BufRead, writer: &mut dyn Write) -> Result<()> {
         let input = InputList::from_reader(reader)?;
         self.context.set_events(input.events.clone());
-        let output = process_events(input, &mut self.context)?;
+        // A 'real' SVG document is passed through untouched and is not post-processed.
+        // Only the document itself is asked: a namespaced <svg> nested in an svgdx
+        // document is passed through as an element (see `Container`) and has no say
+        // in how its siblings or the root are treated.
+        self.context.real_svg = is_real_svg(&input);
+        let output = if self.context.real_svg {
+            (OutputList::raw(input), None)
+        } else {
+            process_events(input, &mut self.context)?
+        };
         self.postprocess(output, writer)
     }
 
